@@ -8,13 +8,16 @@ package main
 // recomputed from the rows.
 
 import (
+	"encoding/binary"
 	"encoding/hex"
 	"fmt"
 	"math"
 	"os"
 	"path/filepath"
 
+	gsnappy "github.com/golang/snappy"
 	"github.com/openGemini/openGemini/engine/immutable"
+	"github.com/openGemini/openGemini/lib/util/lifted/encoding/lz4"
 	"github.com/openGemini/openGemini/lib/record"
 	"github.com/openGemini/openGemini/lib/util/lifted/vm/protoparser/influx"
 	"verifharness/internal/gen"
@@ -221,6 +224,7 @@ type expStat struct {
 	min, max, sum        uint64
 	minT, maxT           int64
 	cmpMin, cmpMax, cmpSum bool
+	exactSum               bool // float: the sum does not depend on the order of the additions
 }
 
 func statOf(col ColIn, times []uint64) expStat {
@@ -275,6 +279,16 @@ func statOf(col ColIn, times []uint64) expStat {
 		e.sum = math.Float64bits(sumF)
 		e.cmpMin, e.cmpMax = finite && e.count > 0, finite && e.count > 0
 		e.cmpSum = finite && !math.IsNaN(sumF) && !math.IsInf(sumF, 0)
+		// order-independent sums only: every value a multiple of 1/8 below 2^40 in magnitude (all partial sums exact)
+		e.exactSum = e.cmpSum
+		for i := range times {
+			if col.Nulls[i] == 0 {
+				f := math.Float64frombits(col.Vals[i])
+				if math.Abs(f) > 1<<40 || f*8 != math.Trunc(f*8) {
+					e.exactSum = false
+				}
+			}
+		}
 	case "bool":
 		e.cmpMin = e.count > 0
 		e.cmpMax = e.count > 0
@@ -314,6 +328,13 @@ func runFile(c *Case) {
 		return
 	}
 	defer os.Remove(path)
+	verifyFile(c, path, ids, all)
+}
+
+// verifyFile reopens a written data file and compares everything the real reader returns with c.Series (the rows the file
+// must hold, series in id order): values, nulls, segment ranges, trailer and stored statistics.
+func verifyFile(c *Case, path string, ids []uint64, all record.Schemas) {
+	var err error
 	if st, e := os.Stat(path); e == nil {
 		c.NPref = int(st.Size())
 	}
@@ -326,6 +347,47 @@ func runFile(c *Case) {
 	if err != nil {
 		c.Oracle, c.EncErr = "decode-error", err.Error()
 		return
+	}
+	// the whole file as bytes for the model reader (small files only), with the chunk-meta blocks decompressed by the
+	// third-party decoders themselves under the compressing modes
+	if data, e := os.ReadFile(path); e == nil && len(data) <= 40000 {
+		c.FileHex = hex.EncodeToString(data)
+		if c.CMode == immutable.ChunkMetaCompressSnappy || c.CMode == immutable.ChunkMetaCompressLZ4 {
+			_ = protect(func() {
+				lock := ""
+				f, e := immutable.OpenTSSPFile(path, &lock, true)
+				if e != nil {
+					return
+				}
+				defer func() { _ = f.Close() }()
+				for i := 0; i < int(f.MetaIndexItemNum()); i++ {
+					mi, e := f.MetaIndexAt(i)
+					if e != nil {
+						return
+					}
+					_, _, _, off, _, size := immutable.VerifMetaIndexFields(mi)
+					if off < 0 || int(off)+int(size) > len(data) {
+						return
+					}
+					blk := data[off : int(off)+int(size)]
+					var d []byte
+					if c.CMode == immutable.ChunkMetaCompressSnappy {
+						d, e = gsnappy.Decode(nil, blk)
+					} else if len(blk) >= 4 {
+						d = make([]byte, binary.BigEndian.Uint32(blk))
+						var n int
+						n, e = lz4.DecompressSafe(blk[4:], d)
+						if e == nil {
+							d = d[:n]
+						}
+						blk = blk[4:]
+					}
+					if e == nil {
+						c.Blocks = append(c.Blocks, [2]string{hex.EncodeToString(blk), hex.EncodeToString(d)})
+					}
+				}
+			})
+		}
 	}
 	curSeries := -1
 	var curStored []uint64
@@ -401,7 +463,7 @@ func runFile(c *Case) {
 			continue
 		}
 		c.St = append(c.St, nil)
-		for k := range se.Cols {
+		for k := range got.Stats { // the data columns, then the time column
 			st := got.Stats[k]
 			c.St[si] = append(c.St[si], []uint64{st.Min, st.Max, uint64(st.MinT), uint64(st.MaxT), st.Sum, uint64(st.Count)})
 		}
@@ -422,7 +484,9 @@ func runFile(c *Case) {
 				fail("stats:"+col.T, -1, "series %d column %s: stored max %d at %d, rows give %d at %d", si, col.T, st.Max, st.MaxT, e.max, e.maxT)
 			}
 			sumEq := st.Sum == e.sum || (col.T == "float" && math.Float64frombits(st.Sum) == math.Float64frombits(e.sum)) // -0.0 == +0.0
-			if e.cmpSum && !sumEq {
+			// a compacted file's float sum is the sum of the source chunks' sums: compared only when the order of the
+			// additions cannot matter
+			if e.cmpSum && (c.K != "compact" || e.exactSum) && !sumEq {
 				fail("stats:"+col.T, -1, "series %d column %s: stored sum %d, rows give %d", si, col.T, st.Sum, e.sum)
 			}
 		}
